@@ -469,8 +469,9 @@ theorem shape_Conn_delSTHandlers : Facts.shape_Conn_delSTHandlers = some "3b3b0f
 theorem shape_Conn_recvFor : Facts.shape_Conn_recvFor = some "252c29c51d77d72b" := by decide
 
 
-/-- [C14] every exported tracker method takes the mutex first (`Lock; defer Unlock`), NewNick/NewChannel after a
-prologue that does not mention the tracker at all -/
+/-- [C02,C05,C13,C14,C16] every exported tracker method takes the mutex first (`Lock; defer Unlock`), NewNick/NewChannel after a
+prologue that does not mention the tracker at all. The `defer` is what C02 / C16 rest on when a built-in handler panics inside
+the tracker: the recovered panic leaves no lock behind (round 4: three getters unlocked by hand, one odd 324 wedged the client) -/
 theorem tracker_lock_discipline : Facts.trackerLockDiscipline = some ["Associate:first", "ChannelModes:first", "DelChannel:first",
     "DelNick:first", "Dissociate:first", "GetChannel:first", "GetNick:first", "IsOn:first", "Me:first", "NewChannel:after-pure-prologue",
     "NewNick:after-pure-prologue", "NickInfo:first", "NickModes:first", "ReNick:first", "String:first", "Topic:first", "Wipe:first"] := by decide
